@@ -1215,6 +1215,9 @@ pub fn c02_live(ctx: &mut Ctx) {
     letters.push(Letter { kind: L_DROP_DB, map: 0, handle: 0, key: 0, val: 0 });
     letters.push(Letter { kind: L_KEEP_ITER, map: 0, handle: 0, key: 0, val: 0 });
     letters.push(Letter { kind: L_PUT, map: 0, handle: H_CLONE, key: 0, val: 1 });
+    // a repeated lookup of the same name must give the same state, not a second instance whose updates are lost at close
+    letters.push(Letter { kind: L_PUT, map: 0, handle: H_LOOKUP, key: 1, val: 0 });
+    letters.push(Letter { kind: L_PUT, map: 0, handle: H_PARAMS, key: 0, val: 0 });
     let cfg = BCfg {
         prop: "C02".into(),
         maps: vec![std_map(KtId::Bytes, 8, 2, 11, seed, "m")],
